@@ -20,7 +20,9 @@ outside must raise NotImplementedError.
 
 Foreign key NAMES: `zzq` (defined nowhere) and, per node, the spelling neighbours of a key the node defines - a
 "truncated" name (defined key minus its last letter: a proper prefix of a defined key) and an "extended" name (defined
-key plus one letter); thorough: one pair per defined key, plus names defined elsewhere in the parser.
+key plus one letter); thorough: one pair per defined key, plus names defined elsewhere in the parser.  And names that
+carry the append suffix `+` without being the append spelling of a list-typed key of the node: "plus-suffixed" (`zzq+`, base
+name defined nowhere) and "plus-suffixed-defined" (`yaw+` next to `yaw: int` - a defined key that is not list-typed).
 
 Used-parser family (operation histories): for every (shape, base configuration, prior call) ONE parser; before every
 judged case the prior call is made on that parser (values on argv, then a --config document that fails while it is
@@ -48,7 +50,8 @@ META = {
     "engine": "bounded exhaustive single-position mutation of valid configurations on real parsers "
     "(mc/checks/c06.py, c06_schema.py, c06_channels.py)",
     "technique": "every node of every valid configuration tree x {foreign key (never-defined name, truncated / extended "
-    "spelling of a defined key), required key removed, required key nulled, leftover argv tokens} x every channel, each "
+    "spelling of a defined key, `+`-suffixed undefined / defined non-list name), required key removed, required key "
+    "nulled, leftover argv tokens} x every channel, each "
     "on a freshly built real parser and - base / required / plain foreign cases - on a parser that has just performed a "
     "failing or a complete earlier parse, judged by an independent schema read from the shape declaration and the "
     "fixture signatures",
@@ -635,6 +638,12 @@ def explore(ctx):
             if ctx.quick
             else "per node every defined key truncated by one letter / extended by one letter (all-in-one: one truncated "
             "and one extended name per node, in its fullest base)",
+            "foreign_key_suffixed_names": "append suffix on a name that is no list-typed key of the node, value 1, not in "
+            "all-in-one: zzq+ per node of every base with every key, <defined non-list key>+ per node of every base; "
+            "without the channels " + ", ".join(SUFFIXED_QUICK_SKIP)
+            if ctx.quick
+            else "zzq+ per node and <defined non-list key>+ (one per node; in the bases with every key one per kind of "
+            "non-list key) in every base and channel (all-in-one: its fullest base)",
             "used_parser_family": "shapes "
             + ("without " + ", ".join(USED_QUICK_SKIP) if ctx.quick else "all (all-in-one: 1 base, 1 prior, 2 channels)")
             + "; bases with every key"
